@@ -243,6 +243,19 @@ class NonSeekableSink(_SinkBase):
         try:
             f = d.point(key, 'before')
             if f is not None:
+                if f['kind'] == 'blockingio':
+                    # a non-blocking destination whose reader fell behind: the first part of the data is taken, then the write
+                    # "could not complete without blocking"
+                    k = len(data) // 2
+                    if k:
+                        self.chunks.append(bytes(data[:k]))
+                        ev = self.w.log.add('dst.write', label=self.label, offset=self.total, nbytes=k, partial=True)
+                        self.writes.append((ev['n'], ev['thread'], self.total, k))
+                        self.total += k
+                    d.note_raised(f, key, 'before')
+                    from .director import TaggedBlockingIO
+
+                    raise TaggedBlockingIO(f['tag'], k)
                 raise_for(f, d, key, 'before')
             off = self.total
             self.chunks.append(bytes(data))
